@@ -56,6 +56,7 @@ REQUIRED_THEOREMS = [
     # Props/C12Compose.lean: end-to-end equivariance of the composed Isomap model (Props/C04Compose.lean)
     "TapkeeVerif.EquivCompose.isomap_permutation_equivariant",
     "TapkeeVerif.EquivCompose.isomap_scale_equivariant",
+    "TapkeeVerif.EquivCompose.laplacian_eigenmaps_scale_invariant",
 ]
 
 # the thread count is C15's subject: every run here is single-threaded so that a difference between two runs is
